@@ -81,6 +81,12 @@ pub fn run<A: Cx>(d: &mut Drv<A>, scale: usize) {
                     *d.rng.pick(&[&BYTE_ENTRIES[..], &STR_ENTRIES[..]].concat())
                 };
                 dst = (dst + 1) % 8;
+                if d.rng.chance(1, 5) {
+                    // the same text through an iterator whose size hint is only an upper bound
+                    let adaptor = *d.rng.pick(&crate::drv::ADAPTORS);
+                    let junk = d.rng.range(1, 9);
+                    d.emit(json!({"op": "parse", "dst": 12, "c": A::NAME, "entry": "loosecollect", "adaptor": adaptor, "junk": junk, "bytes": t}));
+                }
                 let o = d.emit(json!({"op": "parse", "dst": dst, "c": A::NAME, "entry": entry, "bytes": t}));
                 if o["ok"] == json!(true) {
                     // display -> parse -> display is the identity
